@@ -419,6 +419,8 @@ def u_init(ip: Interp, th: PoolTheory):
     # a new pool: no thread belongs to it yet (ghost), nothing forgotten
     st.assume(z3.ForAll([t], z3.And(z3.Select(p.kind, t) != K_WRAPPER, z3.Not(p.is_spawner(t)))))
     st.sh["forgotten"] = IntV(0)
+    st.sh["closing"] = BoolV(False)
+    st.sh["closing2"] = BoolV(False)
     npools0 = st.sh["_pools"].n
     st.assume(npools0 >= 0)
     size = ExtV(fresh("a_size_inf", B), fresh("a_size", I))
